@@ -7,6 +7,7 @@ import (
 	"math/rand"
 	"net"
 	"os"
+	"strings"
 	"sync"
 	"testing"
 	"time"
@@ -768,6 +769,38 @@ func (x *c13) runStampede(tier string) {
 	x.settle()
 	x.checkHookTable()
 	x.checkWireLog()
+	// a link-local IPv6 peer named with its zone: one binding however often it is written to
+	zoned := &net.UDPAddr{IP: net.ParseIP("fe80::1234"), Port: 5000, Zone: "eth0"}
+	for i := 0; i < 5; i++ {
+		_, _ = conn.WriteTo([]byte(fmt.Sprintf("zoned-%d", i)), zoned)
+		time.Sleep(300 * time.Millisecond)
+	}
+	x.settle()
+	if bs, _, ok := x.hookBindings(); ok {
+		n := 0
+		for _, b := range bs {
+			if strings.Contains(b.Addr, "fe80::1234") {
+				n++
+			}
+		}
+		if n != 1 {
+			x.rec.Violate("channel-number-shared", "zoned-peer", "after 5 writes to %s the binding table holds %d bindings for it", zoned, n)
+		}
+	}
+	binds := map[uint16]bool{}
+	for _, ev := range x.srv.Log() {
+		if ev.Dir == "in" && ev.Msg != nil && ev.Msg.Method == wire.MethodChannelBind {
+			if ip, _, ok := ev.Msg.XorAddr(wire.AttrXORPeerAddress); ok && ip.Equal(zoned.IP) {
+				if v, ok := ev.Msg.Get(wire.AttrChannelNumber); ok && len(v) >= 2 {
+					binds[uint16(v[0])<<8|uint16(v[1])] = true
+				}
+			}
+		}
+	}
+	if len(binds) > 1 {
+		x.rec.Violate("channel-number-shared", "zoned-peer/wire", "the client asked for %d different channel numbers for the one peer %s", len(binds), zoned)
+	}
+	x.rec.FP("writeto/zoned-peer")
 	x.rec.EvN("stampede-peers", npeers)
 	x.rec.FP("writeto/stampede")
 	_ = conn.Close()
